@@ -241,6 +241,10 @@ pub fn productions() -> Vec<Prod> {
         E "grid_named"   "grid(columns: 2, gutter: 1pt, ‹A›, ‹A›)";
         E "table_cell"   "table(columns: 2, table.cell(‹A›), ‹A›)";
         E "table_nocol"  "table(‹A›, ‹A›)";
+        E "table_ftr_mid" "table(columns: 2, ‹A›, table.footer(‹A›))";
+        E "table_hdr_mid" "table(columns: 3, ‹A›, ‹A›, table.header(‹A›), ‹A›)";
+        E "grid_ftr_row" "grid(columns: 2, ‹A›, ‹A›, ‹A›, grid.footer(‹A›, ‹A›))";
+        E "table_hdr_ftr" "table(columns: 2, table.header(‹A›), ‹A›, ‹A›, ‹A›, table.footer(‹A›))";
         // ---------------- statements
         S "let"          "let v = ‹E›";
         S "let_bare"     "let v";
@@ -698,10 +702,10 @@ pub fn forms(names: &[&str]) -> Vec<Form> {
 }
 
 pub const FORMS_WS: &[&str] = &["none", "sp", "sp2", "tab", "nl", "nl2", "nl4", "nl_sp", "crlf", "cr", "ls"];
-pub const FORMS_COMMENT: &[&str] = &["bc", "bc_sp", "lc", "lc_sp", "nl_lc", "bc_ml", "bc_star", "lc_lc", "bc_bc", "nl_bc_nl"];
+pub const FORMS_COMMENT: &[&str] = &["bc", "bc_sp", "lc", "lc_sp", "nl_lc", "bc_ml", "bc_star", "lc_lc", "bc_bc", "nl_bc_nl", "off_bc", "off_lc"];
 pub const FORMS_ALL: &[&str] = &[
     "none", "sp", "sp2", "tab", "nl", "nl2", "nl4", "nl_sp", "crlf", "cr", "ls", "bc", "bc_sp", "lc", "lc_sp", "nl_lc",
-    "bc_ml", "bc_star", "lc_lc", "bc_bc", "nl_bc_nl",
+    "bc_ml", "bc_star", "lc_lc", "bc_bc", "nl_bc_nl", "off_bc", "off_lc",
 ];
 pub const FORMS_QUICK: &[&str] = &["nl", "lc", "bc", "none", "nl2", "sp", "nl_lc", "bc_ml", "lc_sp", "bc_sp", "nl4", "cr"];
 
